@@ -32,6 +32,8 @@ class RepoWorld(World):
         self.method_hooks, self.getitem_hooks, self.setitem_hooks, self.truthy_hooks = [], [], [], []
         self.hasattr_hooks, self.callable_hooks = [], []
         self.eq_hooks = []
+        self.setattr_hooks, self.delattr_hooks = [], []
+        self.len_hooks, self.int_hooks, self.iter_hooks = [], [], []
         self.contains_hooks = []
         self.binop_hooks, self.compare_hooks, self.unary_hooks, self.with_call_hooks, self.ref_getattr_hooks = [], [], [], [], []
         self.path_getters = {}
@@ -119,9 +121,16 @@ class RepoWorld(World):
         if base.sort == "Opaque":
             from specs.opaque import fresh_opaque
             return fresh_opaque(ex)
+        if base.sort == "Emitter":
+            from specs.opaque import fresh_emitter
+            return fresh_emitter(ex)
         return super().ref_getattr(ex, base, attr)
 
     def ref_setattr(self, ex, base, attr, v):
+        if base.sort == "Emitter":
+            from specs.opaque import note_emission
+            note_emission(ex, f"attribute {attr} of the lowering context assigned")
+            return
         if base.sort == "Opaque":
             return
         return super().ref_setattr(ex, base, attr, v)
@@ -148,12 +157,32 @@ class RepoWorld(World):
             raise
 
     def with_value(self, ex, cm, body_thunk):
-        if isinstance(cm, VRef) and cm.sort == "Opaque":
+        if isinstance(cm, VRef) and cm.sort in ("Opaque", "Emitter"):
+            # assumption: library context managers do not swallow exceptions of their body
+            ex.assumptions_used.add("opaque library context managers (nullcontext, const-folder scopes) are exception-transparent")
             body_thunk(cm)
             return True
         return False
 
     def iter_hook(self, ex, it):
+        for h in self.iter_hooks:
+            r = h(ex, it)
+            if r is not None:
+                return r
+        return None
+
+    def len_hook(self, ex, v):
+        for h in self.len_hooks:
+            r = h(ex, v)
+            if r is not None:
+                return r
+        return None
+
+    def int_hook(self, ex, v):
+        for h in self.int_hooks:
+            r = h(ex, v)
+            if r is not None:
+                return r
         return None
 
     def attr_known_absent(self, v, nm):
